@@ -17,7 +17,9 @@
 EXTENDS GnpyBase, TLC
 
 CONSTANTS Req,          \* request identifiers of the batch
-          MaxSlots      \* abstract spectrum budget per request
+          MaxSlots,     \* abstract spectrum budget per request
+          Redesign      \* pipeline variant --redesign-per-request: the propagation stage designs the amplifiers of each
+                        \* request's route again before propagating it (refined by Planning.tla, variant Redesign)
 
 Stages == <<"init", "loaded", "designed", "oms", "aggregated", "routed", "propagated", "assigned", "reported">>
 StageNo(s) == CHOOSE i \in 1..Len(Stages) : Stages[i] = s
@@ -60,7 +62,11 @@ PropagateAll == /\ stage = "routed" /\ stage' = "propagated" /\ Mark("Propagate"
                        /\ blocked' = [r \in Req |-> IF r \in B THEN why[r] ELSE blocked[r]]
                        \* a request without a path is not propagated: it stays "routed"
                        /\ st' = [r \in Req |-> IF blocked[r] \in NoPathReasons THEN st[r] ELSE "propagated"]
-                /\ UNCHANGED <<settings, sim, occ, holds>>
+                \* the redesign option is the one case in which a stage other than Design touches the settings - and
+                \* only when some request has a route to redesign
+                /\ IF Redesign /\ \E r \in Req : blocked[r] \notin NoPathReasons
+                   THEN settings' \in {settings, settings + 1} ELSE settings' = settings
+                /\ UNCHANGED <<sim, occ, holds>>
 AssignAll == /\ stage = "propagated" /\ stage' = "assigned" /\ Mark("Assign")
              /\ \E B \in SUBSET {r \in Req : blocked[r] = ""} : \E why \in [B -> AssignReasons] :
                 \E h \in [{r \in Req : blocked[r] = ""} \ B -> 1..MaxSlots] :
@@ -77,7 +83,7 @@ Next == Load \/ Design \/ BuildOms \/ Aggregate \/ RouteAll \/ PropagateAll \/ A
 Spec == Init /\ [][Next]_vars
 
 -----------------------------------------------------------------------------
-OnlyDesignChangesSettings  == settings # last.settings => last.ev = "Design"
+OnlyDesignChangesSettings  == settings # last.settings => (last.ev = "Design" \/ (Redesign /\ last.ev = "Propagate"))
 OnlyAssignChangesOccupancy == occ # last.occ => last.ev = "Assign"
 OccupancyMonotone          == occ >= last.occ
 SimParamsUntouched         == sim = 0
@@ -86,5 +92,5 @@ OccupancyIsSumOfHoldings   == occ = SumFun(holds, Req)
 NoPathNeverPropagated      == \A r \in Req : blocked[r] \in NoPathReasons => st[r] \in {"routed", "reported"}
 BlockedBeforeAssignNeverAssigned == \A r \in Req : blocked[r] \in (NoPathReasons \cup PropReasons) => st[r] # "assigned"
 ServedHoldsSomething       == \A r \in Req : (stage \in {"assigned", "reported"} /\ blocked[r] = "") => holds[r] > 0
-TypeOK == stage \in SeqRange(Stages) /\ settings \in 0..1 /\ occ \in Nat
+TypeOK == stage \in SeqRange(Stages) /\ settings \in 0..2 /\ (~Redesign => settings \in 0..1) /\ occ \in Nat
 ==============================================================================
